@@ -7,6 +7,8 @@ impl vstd::std_specs::convert::FromSpecImpl<OpenFlags> for OFlags {
     open spec fn from_spec(f: OpenFlags) -> OFlags { OFlags { bits: f.bits } }
 }
 /// flags.rs: `impl From<OpenFlags> for rustix::fs::OFlags` = from_bits_retain(bits as u32) (not extracted; A7)
+//@frozen src/flags.rs :: impl From<OpenFlags> for rustix::fs::OFlags fn from
+//@frozen src/flags.rs :: impl From<RenameFlags> for rustix::fs::RenameFlags fn from
 impl From<OpenFlags> for OFlags { fn from(f: OpenFlags) -> (r: OFlags) { OFlags { bits: f.bits } } }
 pub struct RustixRenameFlags { pub bits: u32 }
 impl vstd::std_specs::convert::FromSpecImpl<RenameFlags> for RustixRenameFlags {
@@ -103,6 +105,8 @@ pub uninterp spec fn fresh_kernel_fd(fd: int) -> bool;   // returned by a succes
 #[verifier::external_body]
 pub struct CStringK { _p: () }
 impl CStringK { pub uninterp spec fn view(&self) -> Seq<u8>; }
+//@frozen src/utils/path.rs :: impl ToCString for OsStr fn to_c_string
+//@frozen src/utils/path.rs :: impl ToCString for Path fn to_c_string
 impl Path {
     /// utils/path.rs `ToCString for Path`: copies the bytes up to the first NUL (not extracted: iterator
     /// chain); the precondition makes "up to the first NUL" mean "all of them" (C04: no silent truncation)
